@@ -30,6 +30,12 @@ pub async fn node_world(ctx: &WorkerCtx, peer_flags: u64) -> Result<NodeWorld, S
 pub async fn node_world_opt(ctx: &WorkerCtx, peer_flags: u64, start: bool) -> Result<NodeWorld, String> {
     let w = World::new(ctx.heartbeat.clone(), &ctx.listeners).await;
     let mut node = Node::new("me@127.0.0.1", crate::world::COOKIE);
+    if crate::world::pre_start_use() {
+        // identifiers made before the node learns its creation from EPMD
+        let _ = node.make_reference();
+        let _ = node.spawn(crate::procs::Rec { name: "early".into(), log: Arc::new(Mutex::new(vec![])) }).await;
+        let _ = node.make_reference();
+    }
     if start { node.start(0).await.map_err(|e| format!("node.start: {}", e))?; }
     let node = Arc::new(node);
     let n2 = node.clone();
